@@ -199,7 +199,62 @@ def run_case(case):
     raise KeyError(prov)
 
 
+def entity_commit_case(case):
+    """storage commitment between two real entities over loopback TCP: the N-ACTION is answered on its association; the
+    provider then opens an association of its own back to the requester and reports; the requester's application must be
+    told, for the transaction it asked about, exactly which instances were committed and which were not (and why)"""
+    import threading
+    from pydicom import uid
+    from pynetdicom2 import applicationentity as aem, sopclass as sc
+    ev = threading.Event()
+    got = {}
+    n, nfail = case['n'], case['fail']
+    uids = [(sc.COMPREHENSIVE_SR_STORAGE, '1.2.826.0.1.3680043.9.77.%d.%d' % (case['seed'], k)) for k in range(n)]
+    ok = [u for k, u in enumerate(uids) if k % n >= nfail]
+    tx = '1.2.826.0.1.3680043.9.78.%d' % case['seed']
+
+    class CAE(aem.AE):
+        remote = None
+
+        def on_commitment_request(self, remote_aet, asked):
+            asked = list(asked)
+            got['asked'] = [(str(c), str(i)) for c, i in asked]
+            return (self.remote, [u for u in asked if (str(u[0]), str(u[1])) in ok],
+                    [(c, i, sc.StorageCommitment.NO_SUCH_OBJECT_INSTANCE) for c, i in asked if (str(c), str(i)) not in ok])
+
+        def on_commitment_response(self, transaction_uid, success, failure):
+            got['response'] = (str(transaction_uid), [(str(c), str(i)) for c, i in success],
+                               [(str(c), str(i), int(r)) for c, i, r in failure])
+            ev.set()
+    ae1 = CAE('AET1', 0).add_scp(sc.StorageCommitment()).add_scu(sc.storage_commitment_scu)
+    ae2 = CAE('AET2', 0).add_scp(sc.StorageCommitment()).add_scu(sc.storage_commitment_scu)
+    ae2.remote = dict(address='127.0.0.1', port=ae1.server_address[1], aet='AET1')
+    r2 = dict(address='127.0.0.1', port=ae2.server_address[1], aet='AET2')
+    with ae2, ae1:
+        with ae1.request_association(r2) as assoc:
+            st = assoc.get_scu(sc.STORAGE_COMMITMENT_SOP_CLASS)(tx, uids, case['msgid'])
+            if int(st) != 0:
+                return 'N-ACTION for %d instances answered with status %#06x' % (n, int(st))
+            if not ev.wait(15):
+                return 'the commitment result for transaction %s did not arrive within 15 s of the N-ACTION response' % tx
+    if got.get('asked') != uids:
+        return 'the provider\'s application was asked about %r, the request named %r' % (got.get('asked'), uids)
+    want = (tx, ok, [(c, i, int(sc.StorageCommitment.NO_SUCH_OBJECT_INSTANCE)) for c, i in uids if (c, i) not in ok])
+    if got.get('response') != want:
+        return 'the requester was told %r; the provider\'s application decided %r' % (got.get('response'), want)
+    return None
+
+
+def entity_job(case):
+    try:
+        return entity_commit_case(case)
+    except BaseException as e:  # pylint: disable=broad-except
+        return 'harness:' + common.describe_exc(e)
+
+
 def replay(case):
+    if case.get('entity_commit'):
+        return common.bounded_map(entity_job, [case], 1, 90)[0]
     return run_case(case)
 
 
@@ -254,4 +309,14 @@ def run(chk):
         if v:
             chk.violation('C17:%s:%s' % (case['provider'], v[:25]), '%s  [provider %s, message id %d, context %d, outcome %r]' % (
                 v, case['provider'], case['msgid'], case['pc'], case['outcome']), case)
+    # storage commitment end to end between two real entities over loopback TCP
+    ecs = [{'entity_commit': True, 'n': n_, 'fail': f_, 'msgid': m_, 'seed': k_}
+           for k_, (n_, f_, m_) in enumerate([(1, 0, 1), (5, 0, 7), (5, 2, 65535), (4, 4, 0)])]
+    for ec, v in zip(ecs, common.bounded_map(entity_job, ecs, 4, 90)):
+        if v and v.startswith('harness:'):
+            common.raise_for(v[len('harness:'):])
+        chk.case(repr(ec), True, {'two entities over loopback': True, 'instances': ec['n'], 'not committed': ec['fail']})
+        chk.count('entity-commit')
+        if v and not (common.timing_verdict(v) and not all(common.bounded_map(entity_job, [ec, ec], 2, 90))):
+            chk.violation('C17:entity-commit', v, ec)
     chk.lean(['Dicom.Props.C17'])
